@@ -11,7 +11,7 @@ NODE_KINDS_RAW = ("tag_edit", "len_edit", "content_edit", "zero_len_primitive", 
 # interior family: the outer TLV stays complete and exact (C06)
 INTERIOR = ("inner_len_edit", "node_delete_reframed", "children_truncate_reframed", "zero_len_primitive_reframed",
             "content_truncate_reframed", "control_value_damage", "node_duplicate_reframed", "tag_edit_reframed",
-            "content_edit", "inner_len_shrink", "envelope_emptied")
+            "content_edit", "inner_len_shrink", "envelope_emptied", "root_tag_edit")
 PDU_KINDS = ("truncate_stream", "insert_garbage", "random_blob", "pdu_duplicate", "pdu_reorder", "deep_nest", "byz_message", "giant_pending")
 
 PAGED_OID = b"1.2.840.113556.1.4.319"
@@ -145,6 +145,9 @@ def choose(rng, pdu, family):
         f.update(node=i, keep=rng.randrange(len(order[i].children)))
     elif kind == "control_value_damage":
         f.update(how=rng.choice(["empty", "short", "absent", "not_sequence", "inner_overrun"]))
+    elif kind == "root_tag_edit":
+        # the outermost identifier octets are replaced (content untouched): still one complete unit for any framer
+        f.update(how=rng.choice(["hightag5", "hightag_pad", "application", "context", "primitive", "set", "hightag2"]))
     elif kind == "envelope_emptied":
         # the outer SEQUENCE (or the protocolOp) keeps its tag but has no content at all, in any length form
         f.update(node=rng.choice([0, 0, 2]) if len(order) > 2 else 0, how=rng.choice(["short", "long1", "long2", "long4", "keep"]))
@@ -285,6 +288,13 @@ def apply(pdu, f):
         if reframe:
             return splice(pdu, node, _hdr(node, len(content), pdu) + content, True)
         return pdu[:cut] + pdu[node.end :]
+    if base == "root_tag_edit":
+        ident_len = root.hl - _len_octets(pdu, root)
+        rest = pdu[ident_len:]
+        how = f.get("how")
+        ident = {"hightag5": b"\x7f\x8f\xff\xff\xff\x7f", "hightag_pad": b"\x3f\x80\x80\x80\x80\x10", "application": b"\x70", "context": b"\xb0",
+                 "primitive": b"\x10", "set": b"\x31", "hightag2": b"\x3f\x81\x10"}.get(how)
+        return None if ident is None else ident + rest
     if base == "envelope_emptied":
         if node is None or not node.constructed:
             return None
